@@ -214,8 +214,8 @@ def execute(case: dict) -> dict:
                     kwargs["data"] = fd
                     expect_post = sorted([("f1", "value1"), ("file", ("file", "a b.bin", payload))])
                     expect_body = None
-                if rq.get("chunked") and body_kind not in ("none",):
-                    kwargs["chunked"] = True
+                if rq.get("chunked") and (body_kind not in ("none",) or rq.get("chunked_nobody")):
+                    kwargs["chunked"] = True  # (also asked for without any body: then there is simply nothing to frame)
                 elif rq.get("chunked_false") and body_kind not in ("none",):
                     kwargs["chunked"] = False  # explicit: length-delimited whenever the size is known
                 if rq.get("compress") and body_kind not in ("none", "form", "multipart"):
@@ -447,6 +447,7 @@ def cases(draw):
     if rq["expect100"]:
         rq["expect_hdr"] = draw(st.sampled_from([None, None, "100-continue", "100-Continue", "100-CONTINUE"]))
     rq["via_proxy"] = draw(st.integers(0, 5)) == 0
+    rq["chunked_nobody"] = draw(st.booleans())
     if body_kind not in ("none", "form", "multipart"):
         rq["handler_reads"] = draw(st.sampled_from(["all", "all", "all", "none", "some"]))
     if rq["chunked"] and rq["compress"]:
